@@ -140,6 +140,7 @@ func runWorker(bin string, cfg *sim.WorkerCfg, scratch string, gomaxprocs int, t
 	cfgPath := filepath.Join(scratch, fmt.Sprintf("wcfg-%d.json", cfg.Worker))
 	cfg.Out = filepath.Join(scratch, fmt.Sprintf("wout-%d.json", cfg.Worker))
 	cfg.Progress = filepath.Join(scratch, fmt.Sprintf("wprog-%d", cfg.Worker))
+	_ = os.Remove(cfg.Out) // never read the output of an earlier process of this slot
 	b, _ := json.Marshal(cfg)
 	if err := os.WriteFile(cfgPath, b, 0644); err != nil {
 		return nil, err.Error()
